@@ -123,7 +123,30 @@ static std::string handle(const std::vector<std::string>& a) {
         return "ok " + std::to_string(nPos);
     }
 
-    if (op == "idx" && n == 10) { // per-index data of TBPosition: tb idx <counts> <i>
+    if (op == "sum" && n == 12) { // digest of getMoves / getUnMoves over an index range: tb sum <m|u> <counts> <lo> <hi>
+        PieceCount pc;
+        if (!parseCounts(a, 2, pc)) return "bad-op";
+        if (a[1] != "m" && a[1] != "u") return "bad-op";
+        TBPosition tp(pc);
+        U64 lo = vToU64(a[10]), hi = vToU64(a[11]);
+        if (lo > hi || hi > tp.nPositions()) return "bad-op";
+        U64 h = 1469598103934665603ULL, legalCnt = 0, total = 0;
+        auto mix = [&h](U64 x) { h = (h ^ x) * 1099511628211ULL; };
+        for (U64 i = lo; i < hi; i++) {
+            tp.setIndex((U32)i);
+            if (!tp.indexValid()) { mix(0); continue; }
+            tp.setIndex((U32)i);
+            if (tp.canTakeKing()) { mix(1); continue; }
+            TbMoveList lst;
+            if (a[1] == "m") tp.getMoves(lst); else tp.getUnMoves(lst);
+            mix(2); mix((U64)lst.getSize());
+            for (int k = 0; k < lst.getSize(); k++) mix(lst[k]);
+            legalCnt++; total += lst.getSize();
+        }
+        return "sum " + std::to_string(h) + " legal " + std::to_string(legalCnt) + " entries " + std::to_string(total);
+    }
+
+    if ((op == "idx" || op == "midx") && n == 10) { // per-index data of TBPosition: tb idx <counts> <i>
         PieceCount pc;
         if (!parseCounts(a, 1, pc)) return "bad-op";
         TBPosition tp(pc);
